@@ -101,7 +101,9 @@ type StubSpec struct {
 	HasLabels bool            `json:"hasLabels,omitempty"`
 	Labels    []string        `json:"labels"`
 	NilLabels bool            `json:"nilLabels,omitempty"`
-	Fail      bool            `json:"fail,omitempty"`
+	// ShareLabels: WrapWithLabels hands out the stored label slice itself, not a copy
+	ShareLabels bool `json:"shareLabels,omitempty"`
+	Fail        bool `json:"fail,omitempty"`
 }
 
 func (r RecSpec) String() string {
@@ -153,9 +155,15 @@ func (s stubRecipientLabels) WrapWithLabels(fileKey []byte) ([]*age.Stanza, []st
 	var l []string
 	if !s.s.NilLabels {
 		l = append([]string{}, s.s.Labels...)
+		if s.s.ShareLabels {
+			l = s.s.Labels
+		}
 	}
 	return s.stanzas(), l, nil
 }
+
+// SSHPub is the SSH public key of a private key.
+func SSHPub(k any) ssh.PublicKey { return sshPub(k) }
 
 func sshPub(k any) ssh.PublicKey {
 	s, err := ssh.NewSignerFromKey(k)
